@@ -55,12 +55,12 @@ ASSUMPTIONS = [
 
 # which workloads exercise a package (used to direct the search when the obligation names a variable)
 ALL_WL = ["hashtables", "ordered", "sets", "tries", "heaps", "sorts", "first-follow", "transforms", "predictive", "slr",
-          "lalr", "lr1", "helpers", "misc", "automata"]
+          "lalr", "lr1", "helpers", "misc", "automata", "hashtables-nosync"]
 PKG_WL = {
-    "trie": ["tries"], "symboltable": ["hashtables", "ordered", "helpers"], "set": ["sets", "first-follow"],
+    "trie": ["tries"], "symboltable": ["hashtables-nosync", "hashtables", "ordered", "helpers"], "set": ["sets", "first-follow"],
     "heap": ["heaps"], "sort": ["sorts"], "radixsort": ["sorts"], "unionfind": ["sorts"], "list": ["misc", "slr"],
     "graph": ["misc"], "lexer/input": ["misc"], "lexer": ["misc", "predictive", "slr"], "dot": ["heaps", "tries", "ordered", "automata", "misc", "slr", "predictive"],
-    "hash": ["helpers", "hashtables", "first-follow", "automata"], "automata": ["automata", "helpers"],
+    "hash": ["helpers", "hashtables", "hashtables-nosync", "first-follow", "automata"], "automata": ["automata", "helpers"],
     "grammar": ["first-follow", "transforms", "helpers", "predictive", "slr"], "errors": ["first-follow", "slr", "predictive"],
     "parser": ["predictive", "slr", "lalr", "lr1"], "parser/predictive": ["predictive"], "parser/lr": ["slr", "lalr", "lr1", "helpers"],
     "parser/lr/simple": ["slr"], "parser/lr/lookahead": ["lalr"], "parser/lr/canonical": ["lr1"], "generic": ALL_WL,
@@ -309,6 +309,13 @@ def main(run):
             batches.append(("race-directed", "-mode race -tier quick -budget 25 -wl %s" % ",".join(dw), 600))
         batches.append(("cold", "-mode coldsweep -reps 2 -budget 20 -procs 4,16,2", 300))
         batches.append(("race", "-mode race -tier quick -budget %d" % (30 if dw else 60), 600))
+        # Escalation (reached only when everything above found no schedule, e.g. on a heavily loaded machine where the
+        # goroutines rarely overlap): the thorough-tier directed search, before giving up with no-failing-input-found.
+        if dw:
+            batches.append(("race-directed-long", "-mode race -tier thorough -budget 150 -wl %s" % ",".join(dw), 900))
+            batches.append(("cold-directed-long", "-mode coldsweep -reps 12 -budget 90 -procs 2,4,16 -k 8 -wl %s" % ",".join(dw), 600))
+        else:
+            batches.append(("race-long", "-mode race -tier thorough -budget 180", 900))
     evals = nontriv = 0
     dist, samples = {}, []
     found = False
